@@ -21,32 +21,32 @@ var commonAssume = []string{
 }
 
 func init() {
-	register(&propDef{id: "C19", rorder: true, pristine: true, level: "exploration", quickRuns: 30000, thorRuns: 1500000, quickS: 40, thorS: 600, chunk: 300, pre: c19Pre,
+	register(&propDef{id: "C19", rorder: true, pristine: true, level: "exploration", quickRuns: 150000, thorRuns: 20000000, quickS: 60, thorS: 600, chunk: 300, pre: c19Pre,
 		rule:   "per invocation a corpus of (path, config) calls is drawn (400 quick / 4000 thorough: valid paths of every step kind, 23 templates failing in each parser action, an internal-panic path, function-not-found combinations; configs with every function subset, accessor mode, no config) and every item is executed as the FIRST call of a fresh OS process linked with the pristine tree; each run is a history of 2-10 calls per task (1-4 tasks) drawn from the corpus, some hit by an injected panic at a drawn call site inside Parse, some made with one long-lived Config value that is then modified (every function replaced, accessor mode set); the outcome of every call (nil-ness, error type and text, results and callback logs of the returned function on three probe documents) must equal the fresh-process outcome; functions parsed before a Config modification are re-probed afterwards; a case is (path, config); distinct = distinct hash",
 		assume: append([]string{"the fresh-process reference is the pristine (un-instrumented) build of the current tree; the instrumented build with the simulator inert is required to agree with it item by item, otherwise the check ends with status 2"}, commonAssume...)})
-	register(&propDef{id: "C13", level: "exploration", quickRuns: 30000, thorRuns: 1500000, quickS: 35, thorS: 400, chunk: 300,
+	register(&propDef{id: "C13", level: "exploration", quickRuns: 150000, thorRuns: 20000000, quickS: 60, thorS: 420, chunk: 300,
 		rule:   "each run: one generated document whose leaves are pairwise distinct and whose containers are distinct non-empty allocations; 1-3 generated paths (every step kind, filters, unions with duplicates, negative indices, slices, recursive descent, functions, the root) retrieved in accessor mode, then a history of 2-12 operations: Set(unique sentinel) through a drawn accessor, direct in-place update of a slot by the caller, Get through all accessors, re-retrieval; after every step the document must equal the reference model's document (so exactly the predicted slot changed) and every accessor's Get() must equal the model's read of its location; Set must be nil exactly for non-locations (root, function outputs); locations come from a plain-mode retrieval of the same path located in the document by identity; a case is (path, document); distinct = distinct hash",
 		assume: append([]string{"histories keep to what the README promises: accessors follow Go map/slice semantics, sentinels are leaves", "accessor i corresponds to plain-mode result i (when the two retrievals disagree in length the case is not judged: that is C12)"}, commonAssume...)})
-	register(&propDef{id: "C07", level: "exploration", quickRuns: 30000, thorRuns: 1500000, quickS: 40, thorS: 500, chunk: 300,
+	register(&propDef{id: "C07", level: "exploration", quickRuns: 150000, thorRuns: 20000000, quickS: 60, thorS: 480, chunk: 300,
 		rule:   "each run: 1-2 cases (path with wildcard / filter / recursive / multi-name steps, 65% from the families whose order the property spells out; object documents with 2-12 keys drawn from a pool that sorts differently by byte, rune, UTF-16 unit, length, case and numeric value), each evaluated 3-6 times on independently built equal maps under a different non-ascending map-iteration policy per evaluation (descending, rotated, permuted), interleaved with traversals of other larger/smaller maps that recycle the pooled key buffers (LIFO/FIFO/random pool); every result sequence must equal the one obtained with ascending maps and a fresh pool, and for the spelled-out families the sequence computed by a small reference model (sort.Strings key order, index order, written order, pre-order); a case is (path, document), non-trivial when it parsed; distinct = distinct hash",
 		assume: append([]string{"the reference model covers name, multi-name, wildcard, index union, always-true filter and recursive descent only; other paths are judged by equality between evaluations"}, commonAssume...)})
-	register(&propDef{id: "C14", level: "fault_enumeration", quickRuns: 30000, thorRuns: 1500000, quickS: 40, thorS: 600, chunk: 300,
+	register(&propDef{id: "C14", level: "fault_enumeration", quickRuns: 150000, thorRuns: 20000000, quickS: 60, thorS: 600, chunk: 300,
 		rule:   "each run is one case: a generated prefix path of every step kind followed by 1-3 distinct functions of the menu (filter and aggregate in every order), one generated document, accessor mode on/off, 1-4 tasks sharing the parsed function, callbacks yielding and re-entering the library; the fault-free evaluation's n callback calls are computed by the protocol model and, when n <= 8, ALL 2^n subsets of failing calls are executed (otherwise all-fail, single-fail and random subsets); each evaluation's per-function call log, result and error kind are compared with the model applied to what the prefix alone selects; a case is non-trivial when at least one callback call is expected; distinct = distinct hash of (path, config, document)",
 		assume: append([]string{"exhaustive only over fault subsets of each generated case; the cases themselves are sampled", "the values selected before the first function are obtained from the library itself (retrieval of the prefix in plain mode)"}, commonAssume...)})
-	register(&propDef{id: "C06", race: true, level: "exploration", quickRuns: 20000, thorRuns: 1000000, quickS: 60, thorS: 1200, chunk: 100,
+	register(&propDef{id: "C06", race: true, level: "exploration", quickRuns: 60000, thorRuns: 10000000, quickS: 90, thorS: 1200, chunk: 100,
 		rule:   "each run (race-detector build): 2-16 tasks mix calls of 1-4 shared parsed functions (handed over unevaluated, 25% warmed up) on 1-3 shared read-only documents with Parse/Retrieve of own paths (valid, failing in each parser action, hit by an injected panic), calls of own and of published functions, under a drawn schedule strategy (boundary / random gaps / always-switch-at-seam / at-function / PCT), pool policy and map order; verdicts: race detector report with a library write, outcome != run-alone outcome, deadlock, step budget; a case is (path, first document); distinct = distinct hash",
 		assume: append([]string{"race freedom is judged by Go's race detector over the pairs of operations that ran in the same simulated run, within its shadow-memory window"}, commonAssume...)})
-	register(&propDef{id: "C04", level: "exploration", quickRuns: 40000, thorRuns: 2000000, quickS: 35, thorS: 600, chunk: 400,
+	register(&propDef{id: "C04", level: "exploration", quickRuns: 200000, thorRuns: 20000000, quickS: 60, thorS: 600, chunk: 400,
 		rule:   "each run: 1-8 tasks evaluate generated paths (70% built around a filter combining ==, !=, <, &&, ||, !, regex over present, missing and $-rooted operands; the rest from the general path generator) on 1-4 shared generated documents, through shared parsed functions and through Retrieve, with and without accessor mode (Set never called), callbacks failing by plan; after every completed operation every document is deep-compared (type-tagged) with its snapshot; a case is (path, first document) and counts as non-trivial when the path contains a filter or function; distinct = distinct hash",
 		assume: commonAssume})
-	register(&propDef{id: "C05", rorder: true, level: "exploration", quickRuns: 40000, thorRuns: 2000000, quickS: 35, thorS: 600, chunk: 400,
+	register(&propDef{id: "C05", rorder: true, level: "exploration", quickRuns: 200000, thorRuns: 20000000, quickS: 60, thorS: 600, chunk: 400,
 		rule:   "each run: 1-4 tasks, each parses one generated path (every step kind, filters, functions) and calls it 2-8 times on a family of generated documents, interleaved with unrelated Parse/Retrieve, scribbling and appending to earlier results, under a drawn pool policy / map order / schedule; a case is (path, config, base document) and is non-trivial when the path parsed and at least one call was judged against a freshly parsed reference; distinct = distinct hash of that triple",
 		assume: commonAssume})
 }
 
 func main() {
 	if len(os.Args) >= 4 && os.Args[1] == "instrument" {
-		res, err := instr.Instrument(os.Args[2], os.Args[3], "/verif/simrt", len(os.Args) > 4)
+		res, err := instr.Instrument(os.Args[2], os.Args[3], verifDir+"/simrt", len(os.Args) > 4)
 		if err != nil {
 			fmt.Fprintln(os.Stderr, err)
 			os.Exit(2)
